@@ -984,6 +984,24 @@ theorem C02_flag_off_reads_as_core (f : Nat) (hf : f ∈ allFlags) (env : Env) (
     parseRecipe (α := α) (env.withExt ⟨0⟩) input = parseRecipe env input :=
   c02lift_parseRecipe_local _ env ⟨0⟩ input (c02lift_agree_single f hf env.ext hoff) hb hev
 
+/-- … for COMPONENT_MODIFIERS the pair of flags: with COMPONENT_MODIFIERS off INTERMEDIATE_PREPARATIONS is
+    off too (`bitflags`: it contains the COMPONENT_MODIFIERS bit), so an input that uses only modifier
+    syntax — `@?x`, `@&(1)x` included — is read exactly as under `Extensions::empty()`: the characters
+    after the marker are not consumed as modifiers (`C02_modifiers_off`). -/
+theorem C02_modifiers_off_reads_as_core (env : Env) (hoff : env.ext.has Gen.EXT_COMPONENT_MODIFIERS = false)
+    (input : Str)
+    (hb : AllBlocksOf env.cs input
+      (localToB [Gen.EXT_COMPONENT_MODIFIERS, Gen.EXT_INTERMEDIATE_PREPARATIONS] env.cs) = true)
+    (hev : evsLocalB α [Gen.EXT_COMPONENT_MODIFIERS, Gen.EXT_INTERMEDIATE_PREPARATIONS] env
+      (pullEvents (α := α) env.cs env.ext input).1.toList = true) :
+    parseRecipe (α := α) (env.withExt ⟨0⟩) input = parseRecipe env input :=
+  c02lift_parseRecipe_local _ env ⟨0⟩ input (c02lift_agree_mods env.ext hoff) hb hev
+
+/-- `bitflags`: an extension set with INTERMEDIATE_PREPARATIONS has COMPONENT_MODIFIERS (all raw patterns) -/
+theorem C02_intermediate_implies_modifiers (e : Ext) (h : e.has Gen.EXT_INTERMEDIATE_PREPARATIONS = true) :
+    e.has Gen.EXT_COMPONENT_MODIFIERS = true :=
+  c02lift_inter_implies_mods e h
+
 /-- `Mix @a|b{2-3} and @c{1 kg} for ~rest.`: alias, range, advanced units, a timer without quantity -/
 def C02.extInput : List Char := "Mix @a|b{2-3} and @c{1 kg} for ~rest.".toList
 
@@ -1016,6 +1034,13 @@ example : let input := "Mix @a|b{} well.".toList
     AllBlocksOf C02.env.cs input (localToB [Gen.EXT_COMPONENT_ALIAS] C02.env.cs) = true ∧
     evsLocalB Rat [Gen.EXT_COMPONENT_ALIAS] C02.env (pullEvents (α := Rat) C02.env.cs C02.env.ext input).1.toList = true ∧
     AllBlocksOf C02.env.cs input aliasCore = false := by
+  decide +kernel
+
+example : let input := "Add @?salt and @&(1)dough{}.".toList
+    let G := [Gen.EXT_COMPONENT_MODIFIERS, Gen.EXT_INTERMEDIATE_PREPARATIONS]
+    AllBlocksOf C02.env.cs input (localToB G C02.env.cs) = true ∧
+    evsLocalB Rat G C02.env (pullEvents (α := Rat) C02.env.cs C02.env.ext input).1.toList = true ∧
+    AllBlocksOf C02.env.cs input modsCore = false ∧ AllBlocksOf C02.env.cs input interCore = false := by
   decide +kernel
 
 /-- the agreement hypotheses are satisfiable by sets that really differ in the flag -/
